@@ -189,7 +189,10 @@ Definition bad (c : ccase) : bool :=
   | CaseMsg api chunks o =>
       negb (mobs_eqb (mobs_of (run_msg api chunks)) o) || negb (mobs_eqb (mobs_of (run_msg_o api chunks)) o)
   | CaseMsgList chunks o => negb (lobs_eqb (lobs_of (msglist_stream chunks)) o)
-  | CaseMsgMap chunks o => negb (kobs_eqb (kobs_of (mmap_stream chunks)) o)
+  | CaseMsgMap chunks o =>
+      negb (kobs_eqb (kobs_of (mmap_stream chunks)) o)
+      || negb (dobs_eqb (dobs_of (dmap_stream (map d_of_mmap chunks)))
+                        (match o with KVal m => DOVal (d_of_mmap m) | KErr => DOErr | KPanic => DOPanic end))
   | CaseAny chunks o => negb (obs_eqb (obs_of (concat_stream_any chunks)) o)
   | CaseGenS items o => negb (obs_eqb (obs_of (stream_entry concat_stream items)) o)
   | CaseMsgS items o => negb (mobs_eqb (mobs_of (stream_entry msg_stream items)) o)
